@@ -821,8 +821,10 @@ func init() {
 				hj("C18.small", "H_C18_small", "FileEnd, Credit, DataStreams, End, CreditBatch round trips"),
 				hj("C18.header", "H_C18_header", "control header framing with opaque JSON"),
 				hj("C18.seq2", "H_C18_seq2", "two records of symbolic kinds decode to the same sequence"),
+				hj("C18.FileResumeInfo-large", "H_C18_FileResumeInfo_large", "FileResumeInfo round trip with bitmaps of 64 KiB, 64 KiB + 1 and 128 KiB + 1 (fields read in steps)"),
 			}
-			js[5].JSONLens = []int{0, 1, 2, 300}
+			js[5].JSONLens = []int{0, 1, 2, 300, 65537}
+			js[5].MaxSteps = 20000000
 			js[0].MaxSymAlloc = 8
 			if tier == "thorough" {
 				js = append(js, hj("C18.seq3", "H_C18_seq3", "three records of symbolic kinds decode to the same sequence"))
